@@ -287,7 +287,47 @@ def many_unit(part):
             run.drop(root)
 
 
+def sched_unit(unit):
+    """check() / check(fix=True) on an undamaged cache while another client
+    writes: nothing may be reported, nothing may be lost (all schedules)."""
+    from .. import sched
+    from ..scen import CacheScenario
+    from . import c05
+    _, programs, init, bound, cap = unit
+
+    class CheckScenario(CacheScenario):
+        # A value file that a writer has just written (row not committed yet)
+        # or is about to remove (row already gone) is legitimately seen as
+        # an unknown file by a concurrent check(); but every row check() looks
+        # at under its lock has its file, with the recorded size.
+        def check(self, ex):
+            problems = []
+            for c in ex.clients:
+                for op, result, _, _ in c.results:
+                    if op[0] != 'check':
+                        continue
+                    badk = [k for k in (result if isinstance(result, list)
+                                        else [repr(result)])
+                            if k != 'unknown file']
+                    if badk:
+                        problems.append(('spurious-report', 'check() on an '
+                                         'undamaged cache reports %r' % badk))
+            bad = Snapshot(self.dir).audit()
+            if bad:
+                problems.append(('bookkeeping', '; '.join(bad[:3])))
+            return problems
+
+    part = sched.explore(
+        lambda: CheckScenario(programs, c05.INITS[init], 'own',
+                              {'disk_min_file_size': 8}),
+        bound=bound, por=True, time_cap=cap)
+    part['label'] = 'sched/check'
+    return part
+
+
 def work(unit):
+    if unit[0] == 'sched':
+        return sched_unit(unit)
     kind, combos = unit
     part = {'states': 0, 'transitions': 0, 'executions': 0, 'violations': [],
             'outcomes': {}, 'samples': [], 'caps': [], 'label': 'grid/' + kind}
@@ -323,10 +363,21 @@ def main(tier, seed):
     for i in range(0, len(singles), n):
         units.append(('relative', singles[i:i + n]))
     units.append(('many', ()))
+    BIGV = ('$T', 12)
+    for fix in (False,):
+        for w in (('set', 'a', BIGV, None, None), ('pop', 'a', 0),
+                  ('delete', 'a'), ('set', 'c', ('$B', 14), None, None)):
+            units.append(('sched', [[('check', fix)], [w]], 'file',
+                          None if tier == 'thorough' else 3,
+                          200 if tier == 'quick' else 3000))
     for part in run.pmap(work, units):
         rep.merge(part, part.get('label'))
     rep.bounds = {
         'damage_instances': len(DAMAGES),
+        'concurrent': 'plain check() on an undamaged cache against 4 writes '
+                      'of a file-backed value by another client, all '
+                      'schedules (<= 3 preemptions in quick): only in-flight '
+                      'value files may be reported',
         'subsets': 'all compatible subsets of size <= %d on Cache (%d); size '
                    '<= 2 on each shard of a 2-shard FanoutCache; size <= %d '
                    'on a Cache opened with a relative directory; 151 '
